@@ -13,7 +13,8 @@ from .c05 import shared, _cls
 EXPLANATION = ("C12: mode validation (no bits outside 0o1777) reaches the lookup and every mkdirat (flag-bit analysis with "
                "branch refinement); only EEXIST is tolerated from mkdirat; the step open is O_DIRECTORY|O_NOFOLLOW on the same "
                "(dirfd, name) as the mkdirat; '.', '..' and '' never reach the creation loop; the returned handle is the last "
-               "step open; partial lookups become (handle, remaining) only for ENOENT.")
+               "step open; partial lookups become (handle, remaining) only for ENOENT; the emulated walk never re-creates or assigns "
+               "its symlink stack (a dangling link is reported at the link, as openat2 does, so nothing is created through it).")
 ASSUMPTIONS = ["whole-tree frame condition and convergence of concurrent callers are not decided (they need executions)"]
 
 MK = "root::RootRef::<'_>::mkdir_all"
@@ -342,6 +343,13 @@ def r8_base_directory(ctx):
     return reopen_by_descriptor(ctx, "C12.R8")
 
 
+def r9_partial_lookup_reports_the_link(ctx):
+    """mkdir_all creates the tail of (handle, remaining) that the partial lookup reports: for a dangling link that must be
+    the link's directory and the link itself (refused), which the emulated walk reads off its symlink stack."""
+    from .c04 import symlink_stack_discipline
+    return symlink_stack_discipline(ctx, "C12.R9")
+
+
 RULES = [
     ("C12.R1", r1_mode_validation, 2, False),
     ("C12.R2", r2_creation_loop_inputs, 4, False),
@@ -351,4 +359,5 @@ RULES = [
     ("C12.R6", r6_partial_conversion, 1, False),
     ("C12.R7", r7_refusals_in_loop, 2, False),
     ("C12.R8", r8_base_directory, 2, False),
+    ("C12.R9", r9_partial_lookup_reports_the_link, 1, False),
 ]
